@@ -236,9 +236,18 @@ def run_harness(exe, name, cases, wd, tag='cases', timeout=3000):
     return res, rc, out
 
 
-def run_model(prop, cases, wd, tag='cases', shard=250):
+def run_model(prop, cases, wd, tag='cases', shard=250, impl=None):
     """Evaluate the model on the cases inside Coq (vm_compute). returns {id: value or ('#error', msg)}"""
-    items = [(c['id'], prop.model_term(c)) for c in cases]
+    shard = getattr(prop, 'SHARD', shard)
+    if getattr(prop, 'MODEL_NEEDS_IMPL', False):
+        def ires(c):
+            i = (impl or {}).get(c['id'])
+            if i is None:
+                return {'panic': 'no result'}
+            return {'panic': i['panic']} if 'panic' in i else i['res']
+        items = [(c['id'], prop.model_term(c, ires(c))) for c in cases]
+    else:
+        items = [(c['id'], prop.model_term(c)) for c in cases]
     items = [(i, t) for i, t in items if t is not None]
     shards = [items[k:k + shard] for k in range(0, len(items), shard)]
     results = {}
@@ -324,7 +333,7 @@ def campaign(prop, exe, wd, cases, tag, verdict, known, stats, do_model=True):
     impl, rc, out = run_harness(exe, prop.HARNESS, cases, wd, tag)
     if rc != 0 and not impl:
         raise RuntimeError('harness failed: ' + out[-2000:])
-    model = run_model(prop, cases, wd, tag) if do_model else {}
+    model = run_model(prop, cases, wd, tag, impl=impl) if do_model else {}
     disagreements = []
     for c in cases:
         i = impl.get(c['id'])
@@ -558,7 +567,7 @@ def main_replay(pid, path):
     impl, rc, out = run_harness(exe, prop.HARNESS, [case], wd, 'replay')
     i = impl.get('r0', {})
     ires = {'panic': i['panic']} if 'panic' in i else i.get('res')
-    model = run_model(prop, [case], wd, 'replay')
+    model = run_model(prop, [case], wd, 'replay', impl=impl)
     print('case :', json.dumps(case))
     print('impl :', json.dumps(ires))
     print('model:', model.get('r0'))
